@@ -4,7 +4,7 @@ import re
 from common import *  # noqa
 
 INVS = ['.', 'inv', './inv', 'inv/', 'a/../inv', './a/./inv', 'inv//', 'x/y']
-DIRS = ['nodes', 'classes', 'n', 'c/d', 'nn/', './m', '1', 'true', 'no', 'a b', 'null', 'targets', 'k#1', "it's"]
+DIRS = ['nodes', 'classes', ' n ', 'n', 'c/d', 'nn/', './m', '1', 'true', 'no', 'a b', 'null', 'targets', 'k#1', "it's"]
 PATS = ['.*', '^zz\\.', 'gone$', 'c[0-9]+', '^$', 'a|b', 'nope', '(', '[a', '*x', '']
 BAD = ['(', '[a', '*x']
 PROBES = ['zz.missing', 'nope', 'gone', 'c1', 'ab', 'd1.gone', 'x']
@@ -49,6 +49,8 @@ def rand_entries(rng, valid=False):
         wrong = (not valid) and rng.random() < 0.2
         if k in ('nodes_uri', 'classes_uri'):
             v = S(rng.choice(DIRS[:6] if valid else DIRS))
+            if not valid and rng.random() < 0.12:
+                v = rng.choice([I(1), I(20), B(True)])      # a directory written as another YAML scalar: its text
             if k == 'classes_uri' and any(kk == 'nodes_uri' and vv == v for kk, vv in es):
                 continue
         elif k in ('ignore_class_notfound', 'compose_node_name'):
